@@ -2760,6 +2760,16 @@ def c11_texts(ctx):
                 ls.insert(rng.randint(1, len(ls) - 1), ls[i])
         t2 = "\n".join(ls)
         texts.append(("rt_media" if "#EXTINF" in t else "rt_master", t2))
+    # line breaks and edge characters `str::lines` / `str::trim` treat in their own way: a lone CR (not a line break), CR CR LF, LF CR, a
+    # byte-order mark, vertical tab / form feed / NEL at the line ends, no final newline, a CR inside a line: one answer each time,
+    # and the model's
+    bm = "#EXTM3U\n#EXT-X-TARGETDURATION:10\n#EXTINF:1,t\na.ts\n#EXT-X-ENDLIST\n"
+    bs = "#EXTM3U\n#EXT-X-STREAM-INF:BANDWIDTH=1\nu\n"
+    for t, op in ((bm, "rt_media"), (bs, "rt_master")):
+        for u in (t.replace("\n", "\r"), t.replace("\n", "\r", 1), "\ufeff" + t, t.replace("\n", "\n\r"), t.replace("\n", "\r\r\n"), t.replace("\n", " "), t.replace("\n", "\x0b\n"),
+                  t.replace("\n", "\x0c\n\x0c"), t.replace("\n", "\u0085\n"), t.rstrip("\n"), t + "\r", t.replace(":", "\r:"), t.replace(",", "\r,", 1), t.replace("\n", "\u2028\n"),
+                  t.replace("\n", "\u2028"), t.replace("\n", "\r\n\r\n")):
+            texts.append((op, u))
     # the same texts with quoted strings written so that the parser has to ALLOCATE for them instead of borrowing from the input (no
     # quotes around a URI; a stray quote inside): a result that depends on where such a string lies in memory (comparison of
     # addresses, pointer-keyed maps) shows when the heap looks different from one parse to the next
